@@ -28,6 +28,7 @@ import time
 import traceback
 
 ROOT = os.path.dirname(os.path.dirname(os.path.dirname(os.path.abspath(__file__))))
+OUT = os.environ.get("VERIF_OUT") or ROOT
 CASE_TIMEOUT_S = int(os.environ.get("VERIF_CASE_TIMEOUT", "900"))
 
 
@@ -172,7 +173,7 @@ def execute(prop, tier, seed, workers=None, replay=None, limit=None):
 
     viol_lines = []
     unreproduced = []
-    os.makedirs(os.path.join(ROOT, "replays", prop), exist_ok=True)
+    os.makedirs(os.path.join(OUT, "replays", prop), exist_ok=True)
     confirmed = []
     for k, (sig, occ) in enumerate(new_sigs[:25]):
         idx, v = occ[0]
@@ -188,7 +189,7 @@ def execute(prop, tier, seed, workers=None, replay=None, limit=None):
             repro = (sig in r1) and (sig in r2)
         else:
             repro = True
-        path = os.path.join(ROOT, "replays", prop, f"{tier}_{k:02d}.json")
+        path = os.path.join(OUT, "replays", prop, f"{tier}_{k:02d}.json")
         with open(path, "w") as fh:
             json.dump({"property": prop, "clause": sig[0], "key": sig[1], "detail": v.get("detail", ""),
                        "occurrences": len(occ), "reproduced_twice_fresh": repro, "case": case}, fh, indent=1,
@@ -201,7 +202,7 @@ def execute(prop, tier, seed, workers=None, replay=None, limit=None):
     confirmed += new_sigs[25:]
     new_sigs = confirmed
 
-    with open(os.path.join(ROOT, "replays", prop, f"{tier}_signatures.json"), "w") as fh:
+    with open(os.path.join(OUT, "replays", prop, f"{tier}_signatures.json"), "w") as fh:
         json.dump([{"clause": sig[0], "key": sig[1], "n": len(occ), "detail": occ[0][1].get("detail", "")[:1500]}
                    for sig, occ in new_sigs], fh, indent=1, default=str)
     wall = time.time() - t0
@@ -276,7 +277,7 @@ def aggregate(mod, plan, cases, results, seed):
 
 
 def write_evidence(prop, ev):
-    path = os.path.join(ROOT, "evidence", f"{prop}.json")
+    path = os.path.join(OUT, "evidence", f"{prop}.json")
     os.makedirs(os.path.dirname(path), exist_ok=True)
     try:
         import jsonschema
